@@ -114,7 +114,7 @@ class C07(vlib.Check):
                     f["cnt"] = [[i, v if int(v) <= 255 else "255"] for i, v in f["cnt"]]
                 fps.append(f)
             b = bits
-            for _ in range(rng.randint(0, 6)):
+            for _ in range(rng.choice([0, 0, 1, 2, 3, 4, 6])):     # 0: a fold to the current length is a legitimate fold (2^0)
                 if b > 1 and b % 2 == 0:
                     b //= 2
             self.count("db-route")
@@ -259,6 +259,16 @@ class C07(vlib.Check):
                 got = dump_fp(folded[i])
                 if got != want:
                     return {"key": "db-route-differs:" + case["kind"], "what": "row %d of the folded database differs from folding the fingerprint" % i, "want": want, "got": got}
+            # folding returns a NEW object (also when the length does not change): what is then done to the result must not
+            # reach the source
+            if folded is db:
+                return {"key": "dbfold-returns-source", "what": "FingerprintDatabase.fold(%d) of a %d-bit database returned the source object itself" % (case["bits"], db.bits)}
+            import numpy as np
+            folded.name = "renamed"
+            folded.add_fingerprints([make_fp(dict(case["fps"][0], bits=case["bits"], idx=[], cnt=[]))])
+            folded.set_prop("extra", np.arange(len(case["fps"]) + 1))
+            if dump_db(db) != before or db.name == "renamed":
+                return {"key": "dbfold-result-aliases-source", "what": "changing the database returned by fold(%d) changed the source" % case["bits"]}
             return None
         spec = case["fp"]
         f = make_fp(spec)
